@@ -266,7 +266,9 @@ def history_case_st():
         "how": st.sampled_from(["rewrite", "replace"]),                  # in place, or a new inode moved over the name
         "requests": st.integers(1, 2),
     })
-    return st.fixed_dictionaries({"steps": st.lists(step, min_size=2, max_size=6), "name": st.sampled_from(["page.gmi", "notes.txt"])})
+    return st.fixed_dictionaries({"steps": st.lists(step, min_size=2, max_size=6), "name": st.sampled_from(["page.gmi", "notes.txt"]),
+                                  # the configured maximum: files of up to and including that size are served
+                                  "max": st.sampled_from([None, None, 5000, 262144, 300000, 1])})
 
 
 def run_history(case: dict):
@@ -283,7 +285,7 @@ def run_history(case: dict):
 
     d = scratch.subdir("c06-hist")
     try:
-        handler = StaticFileHandler(d)
+        handler = StaticFileHandler(d) if case.get("max") is None else StaticFileHandler(d, max_file_size=case["max"])
         path = os.path.join(d, case["name"])
         base_t = 1_700_000_000
         cur_t = base_t
@@ -306,6 +308,11 @@ def run_history(case: dict):
                 resp = handler.handle(GeminiRequest.from_line("gemini://localhost/" + case["name"]))
                 got = resp.body if isinstance(resp.body, bytes) else (resp.body or "").encode("utf-8")
                 served += 1
+                if case.get("max") is not None and len(body) > case["max"]:
+                    if 20 <= resp.status <= 29 and got != body:
+                        return viol("stale-or-altered-content", f"step {i}: file of {len(body)} bytes above the maximum {case['max']} answered "
+                                    f"{resp.status} with {len(got)} other bytes", steps=len(case["steps"]))
+                    continue
                 if resp.status != 20 or got != body:
                     k = next((j for j in range(min(len(got), len(body))) if got[j] != body[j]), min(len(got), len(body)))
                     return viol("stale-or-altered-content", f"step {i} ({stp['how']}, mtime {stp['mtime']}): the file now holds {len(body)} bytes, "
@@ -472,6 +479,17 @@ def run_live_pause(case: dict):
     return ok(total=len(want))
 
 
+def enum_huge(tier):
+    M = 10 * 1024 * 1024
+    sizes = [M + 1] if tier == "quick" else [M - 1, M, M + 1, 12 * 1024 * 1024, 33 * 1024 * 1024]
+    for n in sizes:
+        for content, as_str in (("pattern", False), ("text", True)):
+            if tier == "quick" and as_str and n != M + 1:
+                continue
+            yield {"n": n, "content": content, "as_str": as_str, "reader": "drain", "seed": 7, "meta": "text/gemini" if as_str else "application/octet-stream",
+                   "tls": "1.3", "status": 20, "fetched": False}
+
+
 def _near_boundary(total_body):
     return any(abs(total_body - b) <= 2 for b in BOUNDARIES) or any(abs(total_body % 16384) <= 2 or 16384 - (total_body % 16384) <= 2 for _ in [0])
 
@@ -526,6 +544,11 @@ LANES = [
     Lane(name="mem-small", run_case=run_mem, strategy=case_st(300_000), budget={"quick": 1200, "thorough": 8000},
          shards={"quick": 16, "thorough": 32}, nontrivial=_nontrivial, labels=_labels, bucket=_bucket,
          rule="in-memory TLS, both backends, bodies up to 300 kB"),
+    Lane(name="mem-huge", run_case=run_mem, enumerate=enum_huge, budget={"quick": 1, "thorough": 1}, shards={"quick": 2, "thorough": 10}, exhaustive=True,
+         nontrivial=_nontrivial, labels=_labels, bucket=_bucket,
+         rule="in-memory TLS, both backends, bodies of 10 MiB-1, 10 MiB, 10 MiB+1 (quick: +1 only) and 12 / 33 MiB (thorough), bytes and "
+              "text of two-byte characters: sizes beyond the client library's own 10 MiB reading cap but far below the 100 MiB "
+              "the static handler serves by default"),
     Lane(name="mem-large", run_case=run_mem, strategy=case_st(2 * 1024 * 1024 + 2), budget={"quick": 96, "thorough": 800},
          shards={"quick": 16, "thorough": 32}, nontrivial=_nontrivial, labels=_labels, bucket=_bucket,
          rule="in-memory TLS, both backends, bodies up to 2 MiB (thorough adds more cases)"),
